@@ -5,6 +5,7 @@ from .common import Laws, run_subprocess, main_entry, REPO
 from .. import inputs
 
 SPEC = dict(
+    aux_translators=['__sym__'],
     lean_modules=['SmVerif.Props.C16'],
     groups=['Transforms3d', 'TransformsNd', 'Vectors', 'Quaternions', 'Poses'],
     expected_untranslatable=('trinterp_T', 'trinterp_T_nostart'),
